@@ -123,20 +123,20 @@ func genOp(r *rng, re int, p *pat, allowLong bool) Op {
 	op := Op{Kind: findKinds[r.n(len(findKinds))], Re: re, In: genInput(r, p, allowLong), N: []int{-1, -1, -1, 1, 2, 3, 0}[r.n(7)], TimeoutNs: -1}
 	switch op.Kind {
 	case OpReplace, OpReplaceAt:
-		op.Repl = repls[r.n(len(repls))]
+		op.Repl = pickRepl(r)
 		if op.N == 0 {
 			op.N = -1
 		}
 	case OpReplaceFuncReentrant:
-		op.Repl = repls[r.n(len(repls))]
+		op.Repl = pickRepl(r)
 		op.In2 = genInput(r, p, false)
 	case OpReplaceFuncPanic:
 		op.StartAt = r.n(3)
 	case OpMarshalRoundTrip:
-		op.Repl = repls[r.n(len(repls))]
+		op.Repl = pickRepl(r)
 		op.StartAt = r.n(6)
 	case OpWalkMixed:
-		op.Repl = repls[r.n(len(repls))]
+		op.Repl = pickRepl(r)
 		op.In2 = genInput(r, p, false)
 		op.StartAt = r.n(4)
 		op.N = r.n(2)
@@ -202,7 +202,7 @@ func genC12LimitWindow(seed uint64, r *rng) *Scenario {
 		p := probes[r.n(len(probes))]
 		op := p.op
 		op.Kind = kinds[r.n(len(kinds))]
-		op.Repl = repls[r.n(len(repls))]
+		op.Repl = pickRepl(r)
 		switch r.n(4) {
 		case 0: // shorter
 			op.In.Rep = 1 + r.n(p.rep)
@@ -342,7 +342,7 @@ func genC12DeepStack(seed uint64, r *rng) *Scenario {
 		d := deep
 		// (bool-only entry points run the capture-free program, whose stack may stay much smaller)
 		d.Kind = []int{OpFindString, OpFindString, OpFindRunes, OpMatchString, OpFindAllString, OpReplace, OpSplit, OpReplaceFunc}[r.n(8)]
-		d.Repl = repls[r.n(len(repls))]
+		d.Repl = pickRepl(r)
 		if v := pristine(s, &d, deepCap); !v.capped {
 			rDeep++
 			cl.Ops = append(cl.Ops, d)
@@ -362,6 +362,7 @@ func genC12DeepStack(seed uint64, r *rng) *Scenario {
 // genC12 builds one call history for one client (DESIGN §3 C12).
 func genC12(seed uint64, tier string) *Scenario {
 	r := newRng(seed)
+	setReplHot(r)
 	if r.chance(1, 8) {
 		return genC12LimitWindow(seed, r)
 	}
@@ -485,7 +486,7 @@ func genC12(seed uint64, tier string) *Scenario {
 				}
 			}
 			if r.chance(2, 3) {
-				q := Op{Kind: findKinds[r.n(len(findKinds))], Re: heavyRe, In: InputSpec{Unit: heavyFam.In.Unit, Rep: 1 + r.n(4)}, N: -1, TimeoutNs: -1, Repl: repls[r.n(len(repls))], In2: lit("a")}
+				q := Op{Kind: findKinds[r.n(len(findKinds))], Re: heavyRe, In: InputSpec{Unit: heavyFam.In.Unit, Rep: 1 + r.n(4)}, N: -1, TimeoutNs: -1, Repl: pickRepl(r), In2: lit("a")}
 				if heavyFam.Probe != "" && r.chance(2, 3) {
 					q.In = lit(heavyFam.Probe)
 				}
@@ -499,9 +500,9 @@ func genC12(seed uint64, tier string) *Scenario {
 		if limRe >= 0 && r.chance(1, 6) {
 			in := limF.In
 			in.Rep = in.Rep/2 + r.n(in.Rep)
-			cl.Ops = append(cl.Ops, Op{Kind: multiKinds[r.n(len(multiKinds))], Re: limRe, In: in, TimeoutNs: -1, N: -1, Repl: repls[r.n(len(repls))]})
+			cl.Ops = append(cl.Ops, Op{Kind: multiKinds[r.n(len(multiKinds))], Re: limRe, In: in, TimeoutNs: -1, N: -1, Repl: pickRepl(r)})
 			for k := r.n(3); k > 0; k-- {
-				cl.Ops = append(cl.Ops, Op{Kind: multiKinds[r.n(len(multiKinds))], Re: limRe, In: lit(limF.Probe[r.n(len(limF.Probe))]), TimeoutNs: -1, N: -1, Repl: repls[r.n(len(repls))]})
+				cl.Ops = append(cl.Ops, Op{Kind: multiKinds[r.n(len(multiKinds))], Re: limRe, In: lit(limF.Probe[r.n(len(limF.Probe))]), TimeoutNs: -1, N: -1, Repl: pickRepl(r)})
 			}
 			continue
 		}
@@ -515,7 +516,7 @@ func genC12(seed uint64, tier string) *Scenario {
 			op := limitProbes[k]
 			op.Re = limitProbeRe[k]
 			op.Kind = []int{OpFindString, OpMatchString, OpFindAllString, OpReplace, OpFindRunes}[r.n(5)]
-			op.Repl = repls[r.n(len(repls))]
+			op.Repl = pickRepl(r)
 			cl.Ops = append(cl.Ops, op)
 			continue
 		}
